@@ -33,9 +33,15 @@ REGEX_SAMPLES = {
     # fixed length, no prefix, constant suffix that overlaps itself: the window loop has to move on by one byte
     "[0-9a-f]00": ["x000", "a00", "0000"], "[^0-9];;": ["1;;;", "a;;", ";;;;"], ".aa": ["baaa", "aaaa"], "[ab]bb": ["cbbb", "abbb"],
     "..oo": ["xoooo", "foooo"], "[^a]abab": ["aababab", "xabab"], ".{2};;": ["1;;;;", ";;;"],
+    # literal text around a counted group of alternations large enough to exhaust the budget of ConstantSuffix (2^18 calls):
+    # the analysis must then claim no suffix at all
+    "FLAG_(?:[a-z]|%[0-9]{2}){18}": ["FLAG_" + "ab%12c" * 3 + "abcabc", "FLAG_" + "x" * 18, "FLAG_" + "%07" * 18 + "!"],
+    "id=(?:ab|c){18};": ["id=" + "c" * 18 + ";", "id=" + "abc" * 9 + ";", "id=" + "ab" * 18 + ";x"],
+    "x(?:aa|b){19}": ["x" + "b" * 19, "x" + "aab" * 9 + "b"],
     "a[a-c]?b": ["ab", "acb"], "ab?": ["a", "ab"], "fo*3": ["f3", "foo3"], "[fb]oo": ["boo", "foo"], "(?:fo|f)o3": ["foo3", "fo3"], "oo3|ar": ["oo3", "ar"],
 }
-REGEXES = sorted(REGEX_SAMPLES)
+BUDGET_REGEXES = [r for r in REGEX_SAMPLES if "){18}" in r or "){19}" in r]   # exhaust ConstantSuffix's budget: expensive to prepare
+REGEXES = sorted(r for r in REGEX_SAMPLES if r not in BUDGET_REGEXES)
 ASSERT_REGEXES = ["^foo", "foo3$", "bar$", "\\bfoo\\b", "foo\\z", "\\Aa", "^$", "\\Bx?", "(?m:^)ab", "a$", "^", "$", "\\bb", "o\\b", "(?m:a$)", "^a*$", "\\Bb"]
 CAPTURE_REGEXES = ["(?P<v>a\\n?b)", "(?P<v>[^ ]+)", "(?P<v>.\\n.)", "(?P<v>[a-z])", "(?P<v>[a-z]+)[0-9]", "(?P<v>a|b)", "(?P<v>a)?b", "(?P<v>fo+)", "x(?P<v>.)", "(?P<v>[0-9]+)"]
 # two captures in one expression, and uses of two or three variables (also the same one twice) in one element
@@ -77,6 +83,8 @@ def gen_case(rng, idx, allow_assert, allow_vars):
     nconv = rng.choice([0, 0, 0, 1, 2])
     conv = rng.choice(["", "", "", "none"] + ["c%d" % i for i in range(nconv)])
     pool = [rng.choice(REGEXES) for _ in range(rng.choice([1, 2, 3]))]
+    if rng.random() < 0.006:
+        pool = [rng.choice(BUDGET_REGEXES)] * 3 + pool[:1]
     if allow_assert and rng.random() < 0.35:
         pool.append(rng.choice(ASSERT_REGEXES))
     uses_vars = allow_vars and rng.random() < 0.2
@@ -400,6 +408,7 @@ def main(tier, seed, replay=None):
     stats = {"cases": len(cases), "streams": 0, "with_model": 0, "with_variables": 0, "with_assertions": 0, "selected_some": 0,
              "selected_all": 0, "selected_none": 0, "errors_agreed": 0, "sequences": 0, "inverted": 0, "with_converters": 0}
     distinct = set()
+    verdicts = []
     for i, c in enumerate(cases):
         o, m = impl.get(i), model.get(i)
         stats["streams"] += len(c["streams"])
@@ -420,9 +429,28 @@ def main(tier, seed, replay=None):
         if replay:
             print("case", json.dumps(c), "\nimpl ", o and o["impl"], "\nnaive", o and o["naive"], "\nmodel", m)
         v = judge(c, o, m)
-        if v is None:
-            continue
-        kind, text = v
+        if v is not None:
+            verdicts.append((c, v))
+    # A disagreement between model and code that is not yet a failing input (e.g. the facts the code derives for an expression
+    # differ from the analyses of the model): search a failing input on exactly the expressions involved, each alone and negated,
+    # on payloads made of its own samples.
+    if verdicts and not any(v[0] == "impl" for _, v in verdicts) and not replay:
+        res = sorted({e["re"] for c, v in verdicts[:40] for cj in c["or"] for cd in cj for e in cd["elems"] if not e["vars"]})
+        targeted = []
+        for re_ in res[:30]:
+            samples = REGEX_SAMPLES.get(re_, []) + ["", "x"]
+            streams = [{"raw": [[d, pre + smp + post]], "conv": []} for smp in samples for d in (0, 1) for pre, post in (("", ""), ("ab ", " ba"))]
+            for inv in (False, True):
+                for d in (0, 1):
+                    targeted.append({"nconv": 0, "conv": "", "streams": streams, "or": [[{"inv": inv, "elems": [{"d": d, "re": re_, "vars": []}]}]]})
+        timpl, tmodel, _, _, _ = execute(targeted, exe, "targeted")
+        for k, tc in enumerate(targeted):
+            tv = judge(tc, timpl.get(k), tmodel.get(k))
+            if tv is not None and tv[0] == "impl":
+                verdicts.insert(0, (tc, tv))
+                break
+    verdicts.sort(key=lambda x: 0 if x[1][0] == "impl" else 1)
+    for c, (kind, text) in verdicts[:4]:
         small = minimise(c, exe, kind) if not replay else c
         im, mo, _, _, _ = execute([small], exe, "min")
         obj = {"property": PROP, "what": text, "case": small, "original_case": c, "impl": im.get(0, {}).get("impl"), "naive": im.get(0, {}).get("naive"),
@@ -433,8 +461,6 @@ def main(tier, seed, replay=None):
             obj["broken"] = "correspondence between theories/DataFilter.v and search_data.go: " + text
             violation(PROP, obj, no_input=True)
         nviol += 1
-        if nviol >= 4:
-            break
     if note and nviol == 0:
         violation(PROP, {"property": PROP, "broken": "correspondence harness could not run against this tree", "note": note}, no_input=True)
         nviol += 1
